@@ -101,6 +101,73 @@ Theorem c01_emitted_bytes :
            out st = map fst (flat_list' cx ecx (fst (nf_rt_list false l))) ++ [WEnd].
 Proof. exact roundtrip_body_sem. Qed.
 
+(* ---- function reordering / renumbering at MODULE level (Proofs/SemCalls.v: a self-contained executable semantics with direct calls, function
+   references stored in stack / table / globals, call through a reference, call_indirect, structured control): for every injective renumbering
+   rho of the function index space, the renamed module started at rho f on the renamed state behaves as the original started at f - same trap,
+   same fuel exhaustion, same final state up to renaming of the references it contains; numeric results are literally equal.  The only interface
+   left is per operator: an operator that is neither a call nor a ref.func commutes with the renaming of the references in the state (shown
+   for a concrete set of reference-moving operators; violated by an operator that would turn a reference into its index, which wasm has not).
+   Reordering WITHOUT renaming the call targets changes behaviour (witness). *)
+From Coq Require Import String.
+From WV Require Import Proofs.SemCalls.
+Theorem c01_function_renumbering_preserves_behaviour :
+  forall (op : Type) (step_op : op -> state -> option state) (rho rho_inv : N -> N),
+         (forall f : N, rho_inv (rho f) = f) ->
+         (forall (o : op) (st : state),
+          step_op o (rename_state rho st) = option_map (rename_state rho) (step_op o st)) ->
+         forall (fuel : nat) (M : module op) (f : N) (st : state),
+         run op step_op fuel (rename_module op rho rho_inv M) (rho f) (rename_state rho st) =
+         rename_outcome rho (run op step_op fuel M f st).
+Proof. exact rename_preserves_behaviour. Qed.
+
+Theorem c01_renumbering_a_permutation_of_the_functions :
+  forall (op : Type) (step_op : op -> state -> option state) (n : N) (rho rho_inv : N -> N),
+         (forall f : N, (f < n)%N -> (rho f < n)%N) ->
+         (forall f : N, (f < n)%N -> rho_inv (rho f) = f) ->
+         (forall (o : op) (st : state),
+          step_op o (rename_state (ext n rho) st) = option_map (rename_state (ext n rho)) (step_op o st)) ->
+         forall (fuel : nat) (M : module op) (f : N) (st : state),
+         run op step_op fuel (rename_module op (ext n rho) (ext n rho_inv) M) (ext n rho f)
+           (rename_state (ext n rho) st) = rename_outcome (ext n rho) (run op step_op fuel M f st).
+Proof. exact rename_preserves_behaviour_perm. Qed.
+
+Theorem c01_exports_behave_the_same :
+  forall (op : Type) (step_op : op -> state -> option state) (rho rho_inv : N -> N),
+         (forall f : N, rho_inv (rho f) = f) ->
+         (forall (o : op) (st : state),
+          step_op o (rename_state rho st) = option_map (rename_state rho) (step_op o st)) ->
+         forall (fuel : nat) (M : module op) (n : string) (st : state),
+         run_export op step_op fuel (rename_module op rho rho_inv M) n (rename_state rho st) =
+         rename_outcome rho (run_export op step_op fuel M n st).
+Proof. exact export_call_same_behaviour. Qed.
+
+Theorem c01_numeric_results_identical :
+  forall (op : Type) (step_op : op -> state -> option state) (rho rho_inv : N -> N),
+         (forall f : N, rho_inv (rho f) = f) ->
+         (forall (o : op) (st : state),
+          step_op o (rename_state rho st) = option_map (rename_state rho) (step_op o st)) ->
+         forall (fuel : nat) (M : module op) (f : N) (st : state) (vs : list value),
+         results (run op step_op fuel M f st) = Some vs ->
+         numeric vs ->
+         results (run op step_op fuel (rename_module op rho rho_inv M) (rho f) (rename_state rho st)) = Some vs.
+Proof. exact numeric_results_identical. Qed.
+
+Theorem c01_interface_holds_for_reference_moving_operators :
+  forall (rho : N -> N) (o : cop) (st : state),
+         cstep o (rename_state rho st) = option_map (rename_state rho) (cstep o st).
+Proof. exact cstep_rename. Qed.
+
+Theorem c01_interface_has_content :
+  exists (rho : N -> N) (st : state),
+           leaky_step tt (rename_state rho st) <> option_map (rename_state rho) (leaky_step tt st).
+Proof. exact leaky_op_violates_interface. Qed.
+
+Theorem c01_reordering_without_renaming_differs :
+  run cop cstep 50 {| funcs := fun g : N => funcs cop ex_M (sigma_inv g); exports := exports cop ex_M |}
+           (sigma 0) ex_st <> run cop cstep 50 ex_M 0 ex_st.
+Proof. exact ex_unrenamed_differs. Qed.
+
+
 Print Assumptions c01_normal_form_is_equivalent.
 Print Assumptions c01_equivalence_on_the_renamed_operators.
 Print Assumptions c01_divergence_preserved.
@@ -108,3 +175,10 @@ Print Assumptions c01_only_dead_code_and_nops_dropped.
 Print Assumptions c01_else_synthesis.
 Print Assumptions c01_emitted_body_is_flattened_normal_form.
 Print Assumptions c01_emitted_bytes.
+Print Assumptions c01_function_renumbering_preserves_behaviour.
+Print Assumptions c01_renumbering_a_permutation_of_the_functions.
+Print Assumptions c01_exports_behave_the_same.
+Print Assumptions c01_numeric_results_identical.
+Print Assumptions c01_interface_holds_for_reference_moving_operators.
+Print Assumptions c01_interface_has_content.
+Print Assumptions c01_reordering_without_renaming_differs.
